@@ -148,6 +148,9 @@ class Program:
                     with open(path, encoding="utf-8") as fh:
                         src = fh.read()
                     tree = ast.parse(src, filename=path)
+                    if os.environ.get("TPSA_NO_NORMALISE") != "1":
+                        from .normalise import normalise
+                        tree = normalise(tree)
                 except (OSError, SyntaxError, ValueError) as e:
                     raise AnalysisError(f"cannot parse {path}: {e}") from e
                 m = Module(modname, path, os.path.relpath(path, self.repo), src, tree)
